@@ -314,6 +314,8 @@ mod mpmc;
 mod multiqueue;
 mod read_cursor;
 pub mod wait;
+#[cfg(multiqueue2_verif)]
+pub mod verif_hooks;
 
 pub use crate::broadcast::{
     broadcast_fut_queue, broadcast_fut_queue_with, broadcast_queue, broadcast_queue_with,
